@@ -139,6 +139,9 @@ def run(tier, seed, jobs) -> Result:
     per = []
     caps = []
     distinct = 0
+    import time as _t
+
+    deadline = _t.time() + (100000 if tier == "quick" else 2400)  # thorough: 40 minutes, then the remaining scenarios stop at one deviation
     heavy = ("move1|fetch3", "move1|move3", "move|moveback", "copy|rename-dst", "re-examine,noop|move")
     for sc in scenarios(tier):
         b = bound
@@ -147,7 +150,7 @@ def run(tier, seed, jobs) -> Result:
         if tier != "quick":
             sc = dict(sc, loopopts=dict(sc.get("loopopts") or {}, preempt_timers=True))
             b = thorough_bound(sc["name"])
-        r = sched.explore(sc, b, jobs, seed, max_exec=20000 if tier == "quick" else 120000)
+        r = sched.explore(sc, b, jobs, seed, max_exec=20000 if tier == "quick" else 120000, deadline=deadline)
         res.failures.extend(r["failures"])
         tot_exec += r["executions"]
         tot_steps += r["steps"]
